@@ -19,8 +19,11 @@ CLAIM = dict(
     text="Theorems in DarsiaProps.C20 over tables re-tabulated from the running helpers on every run (G1): agreement of "
     "to_matrix/to_cartesian with interpret_indexing, there-and-back, integer = named axis, coherence and bijectivity of "
     "interpret_indexing, layout helper = coordinate-system placement (all shapes), layout helpers mutually inverse (all shapes, "
-    "all indices), slice/reduce by name resolve to the same matrix axis as by index, and slicing at the centre coordinate of voxel v selects index v (tabulated on the base shape 2x3x5; the \"same data\" clause for other shapes, series and vector payloads is checked by the oracle). Exhaustive over the finite vocabulary; random arrays (incl. trailing payload axes) tie the "
-    "layout index maps and slicing/reduction to the model. Observed by the oracle only (no theorem): name = index agreement along call "
+    "all indices, both directions: layout_inverse, layout_inverse', non-vacuity layout_specs_exist), slice/reduce by name resolve to the same matrix axis as by index, and slicing at the centre coordinate of voxel v selects index v (tabulated on the base shape 2x3x5; the \"same data\" clause for other shapes, series and vector payloads is checked by the oracle). Exhaustive over the finite vocabulary; random arrays (incl. trailing payload axes) tie the "
+    "layout index maps and slicing/reduction to the model. `slice_name_eq_index` (proved on the C01 coordinate model, file DarsiaModel/Slice.lean, tied through "
+    "the C01 correspondence): slicing by Cartesian name at any coordinate inside voxel layer v equals slicing by matrix index v, for every well-formed geometry of every "
+    "shape, dimension 1-3, reversed and non-reversed axes. For REDUCTION only the resolved axis is tabulated and proved; that reduction by name and by index give the same "
+    "data is checked by the oracle. Observed by the oracle only (no theorem): name = index agreement along call "
     "sequences that move the origin in place, and voxel placement of scalar/vector/tensor data in the VTK export (pyevtk stubbed).",
     note="numpy swapaxes/flip semantics (tied by the layout correspondence); tabulation is exhaustive over dims 1-3 x axes x indexings.",
     technique="Lean 4 proof (decide over tables regenerated from the code + general index-map lemmas) + differential correspondence",
@@ -286,6 +289,14 @@ def oracle(ctx, d, t):
             cimg = m2c(d, dim)(arr)
             if isinstance(cimg, Raised):
                 ctx.fail(f"C20:matrixToCartesianIndexing(dim={dim}):raises", str(cimg), {"shape": shape})
+                break
+            # the other direction: start from a Cartesian-layout array B (any shape), m2c(c2m(B)) == B
+            barr = np.arange(int(np.prod(shape)), dtype=float).reshape(shape) * 2.0 + 1.0
+            mb = c2m(d, dim)(barr)
+            bb = mb if isinstance(mb, Raised) else m2c(d, dim)(mb)
+            if isinstance(bb, Raised) or bb.shape != barr.shape or not np.array_equal(bb, barr):
+                ctx.fail(f"C20:matrixToCartesianIndexing(dim={dim}):not-inverse-of-cartesianToMatrixIndexing",
+                         "matrixToCartesianIndexing(cartesianToMatrixIndexing(B)) != B", {"shape": shape, "dim": dim})
                 break
             back = c2m(d, dim)(cimg)
             if isinstance(back, Raised) or back.shape != arr.shape or not np.array_equal(back, arr):
